@@ -425,15 +425,16 @@ class PythonRegex(regex.Regex):
 
     def _escape_in_brackets(self):
         regex_temp = []
-        in_brackets = False
+        # The shortcuts already introduced nested brackets: [\d.] is [[0-9].]
+        depth_brackets = 0
         for symbol in self._python_regex:
             if (symbol == "["
                     and not self._should_escape_next_symbol(regex_temp)):
-                in_brackets = True
+                depth_brackets += 1
             elif (symbol == "]"
                   and not self._should_escape_next_symbol(regex_temp)):
-                in_brackets = False
-            if (in_brackets
+                depth_brackets = max(0, depth_brackets - 1)
+            if (depth_brackets > 0
                     and not self._should_escape_next_symbol(regex_temp)
                     and symbol in TO_ESCAPE_IN_BRACKETS):
                 regex_temp.append("\\" + symbol)
@@ -444,6 +445,17 @@ class PythonRegex(regex.Regex):
         self._python_regex = "".join(regex_temp)
 
     def _replace_shortcuts(self):
-        for to_replace, replacement in SHORTCUTS.items():
-            self._python_regex = self._python_regex.replace(to_replace,
-                                                            replacement)
+        # One pass, so that an escaped backslash followed by d, s or w is
+        # not taken for a shortcut
+        regex_temp = []
+        idx = 0
+        while idx < len(self._python_regex):
+            symbol = self._python_regex[idx]
+            if symbol == "\\" and idx + 1 < len(self._python_regex):
+                pair = self._python_regex[idx:idx + 2]
+                regex_temp.append(SHORTCUTS.get(pair, pair))
+                idx += 2
+            else:
+                regex_temp.append(SHORTCUTS.get(symbol, symbol))
+                idx += 1
+        self._python_regex = "".join(regex_temp)
